@@ -4,7 +4,11 @@ C14 — executable model of list-mode histogramming: `stir::LmToProjData::set_up
 
 What is data here (supplied by the harness from the real code, property C01's business):
 the bin that the event decoder returns for an event (`ListEvent::get_bin` on the template, through
-`LmToProjData::get_bin_from_event`, LmToProjData.cxx:485; `none` = "bin value <= 0").
+`LmToProjData::get_bin_from_event`, LmToProjData.cxx:485; `none` = "bin value <= 0") — whichever decoder it is: the harness
+runs `CListEventCylindricalScannerWithDiscreteDetectors`, LOR-only events (`ListEvent::get_bin`, ListEvent.cxx), events of
+BlocksOnCylindrical scanners, `CListEventSAFIR` (CListRecordSAFIR.inl, records read from a real file by `CListModeDataSAFIR`)
+and `CListEventECAT8_32bit` (CListRecordECAT8_32bit.cxx, real file); the record list is what `get_next_record` delivers, and
+"rewind to the saved position" is `set_get_position` of that reader.
 
 Units: time is in the unit of `ListTime::get_time_in_millisecs()` (integer milliseconds).  The C++ compares the
 doubles `ms/1000.` (`ListTime::get_time_in_secs`) with the frame boundaries; the harness gives frame boundaries
